@@ -1,7 +1,10 @@
 import GtirbProofs.Lemmas.IndexProofs2
 /-! C12: deferred index maintenance is unobservable. The answer to any lookup
 depends only on the current structure, never on which lookups were issued
-earlier, when, or how many edits accumulated between them. -/
+earlier, when, or how many edits accumulated between them.
+
+`LazyOK`, `DInv`, `strip`, `sameAnswer` are defined in
+`GtirbProofs/Lemmas/IndexProofs2.lean`. -/
 namespace Gtirb.Index
 
 /-- all three branches of `get` return the current set, whatever the threshold says -/
@@ -19,16 +22,124 @@ theorem C12_query_inv (d : D) (q : Query) (h : DInv d) : DInv (runQuery d q).1 :
 
 /-- lookups do not change the structure (everything except the lazy state).
 Intended statement: `strip (runQuery d q).1 = strip d` for every `d`; that is
-false when two byte intervals share an id (forcing the index of one overwrites
-the attributes of the other, see the `example` below), so well-formedness is
-assumed. -/
+false of the model when two byte intervals share an id (`D.setBI` then
+overwrites the attributes of the second one, see `C12_query_strip_needs_inv`
+below), so well-formedness is assumed. -/
 theorem C12_query_strip (d : D) (q : Query) (h : DInv d) : strip (runQuery d q).1 = strip d :=
   (runQuery_inv_strip h q).2
+
+/-- the structural effect of an edit depends on the structure only (no
+well-formedness needed) -/
+theorem C12_edit_strip (d d' : D) (e : Edit) (h : strip d = strip d') :
+    strip (applyEdit d e) = strip (applyEdit d' e) :=
+  applyEdit_strip_congr e h
 
 /-- answers are functions of the structure: two well-formed states with the
 same structure answer every query with the same set of ids (and the same extent) -/
 theorem C12_answer_of_strip (d d' : D) (q : Query) (h : DInv d) (h' : DInv d')
     (hs : strip d = strip d') : sameAnswer (runQuery d q).2 (runQuery d' q).2 :=
   answer_of_strip q h h' hs
+
+/-- histories keep the invariant -/
+theorem C12_exec_inv (d0 : D) (h0 : DInv d0) (a : List Act) : DInv (exec d0 a) :=
+  (exec_spec a d0 d0 h0 rfl).1
+
+/-- the structure after a history is the structure after its edits alone -/
+theorem C12_exec_strip (d0 : D) (h0 : DInv d0) (a : List Act) :
+    strip (exec d0 a) = strip ((editsOf a).foldl applyEdit d0) :=
+  (exec_spec a d0 d0 h0 rfl).2
+
+/-- schedule independence: two histories with the same edits, whatever lookups
+are interleaved, give the same final answers -/
+theorem C12_schedule (d0 : D) (h0 : DInv d0) (a1 a2 : List Act) (he : editsOf a1 = editsOf a2)
+    (q : Query) : sameAnswer (runQuery (exec d0 a1) q).2 (runQuery (exec d0 a2) q).2 := by
+  have h1 := exec_spec a1 d0 d0 h0 rfl
+  have h2 := exec_spec a2 d0 d0 h0 rfl
+  refine answer_of_strip q h1.1 h2.1 ?_
+  rw [h1.2, h2.2, he]
+
+theorem C12_init : DInv ({} : D) := dinv_init
+
+/-- the driver's `blk` line: a fresh detached block -/
+theorem C12_add_blk (d : D) (h : DInv d) (i : Nat) (k : Bool) (o z : Nat)
+    (hi : i ∉ d.blks.map (·.id)) : DInv { d with blks := d.blks ++ [⟨i, k, o, z, none⟩] } :=
+  dinv_add_blk h i k o z hi
+
+/-- the driver's `bi` line: a fresh detached byte interval -/
+theorem C12_add_bi (d : D) (h : DInv d) (i : Nat) (a : Option Nat) (z : Nat)
+    (hi : i ∉ d.bis.map (·.id)) :
+    DInv { d with bis := d.bis ++ [{ id := i, addr := a, size := z, sec := none }] } :=
+  dinv_add_bi h i a z hi
+
+/-- the driver's `sec` line: a fresh section -/
+theorem C12_add_sec (d : D) (h : DInv d) (i : Nat) (hi : i ∉ d.secs.map (·.id)) :
+    DInv { d with secs := d.secs ++ [{ id := i }] } :=
+  dinv_add_sec h i hi
+
+/-! ### concrete examples (non-vacuity) -/
+
+/-- two overlapping blocks (1, 2) and a zero-sized one (3), one byte interval, one section -/
+def exD0 : D :=
+  { blks := [⟨1, true, 0, 8, none⟩, ⟨2, false, 4, 8, none⟩, ⟨3, true, 6, 0, none⟩],
+    bis := [{ id := 10, addr := some 100, size := 32, sec := none }],
+    secs := [{ id := 20 }] }
+
+def exActs : List Act :=
+  [.edit (.blkMove 1 (some 10) true), .edit (.blkMove 2 (some 10) true),
+   .edit (.blkMove 3 (some 10) true), .edit (.biMove 10 (some 20) true),
+   .look (.bono 10 ⟨0, 100, 1⟩), .edit (.blkSet 1 1 8)]
+
+/-- the same edits, no lookup in between -/
+def exActs' : List Act :=
+  [.edit (.blkMove 1 (some 10) true), .edit (.blkMove 2 (some 10) true),
+   .edit (.blkMove 3 (some 10) true), .edit (.biMove 10 (some 20) true),
+   .edit (.blkSet 1 1 8)]
+
+def exD : D := exec exD0 exActs
+def exD' : D := exec exD0 exActs'
+
+theorem exD0_inv : DInv exD0 where
+  blk_ids := by decide
+  bi_ids := by decide
+  sec_ids := by decide
+  bi_ok := by
+    intro bi hbi
+    simp only [exD0, List.mem_singleton] at hbi
+    subst hbi; exact lazyOK_empty _
+  sec_ok := by
+    intro sc hsc
+    simp only [exD0, List.mem_singleton] at hsc
+    subst hsc; exact lazyOK_empty _
+
+theorem exD_inv : DInv exD := C12_exec_inv exD0 exD0_inv exActs
+theorem exD'_inv : DInv exD' := C12_exec_inv exD0 exD0_inv exActs'
+
+/-- `exD` carries a built tree with two pending events (replay branch), `exD'`
+no tree at all (first-build branch) -/
+example : (exD.bi? 10).map (fun b => (b.lz.tree.isSome, b.lz.events.length)) = some (true, 2) := by
+  decide
+example : (exD'.bi? 10).map (fun b => (b.lz.tree.isSome, b.lz.events.length)) = some (false, 5) := by
+  decide
+
+/-- same ids, different order: the answers agree as sets only -/
+example : (biBlocksOn exD 10 ⟨100, 107, 1⟩).2 = [2, 1] := by decide
+example : (biBlocksOn exD' 10 ⟨100, 107, 1⟩).2 = [1, 2] := by decide
+example : scanBlocksOn exD 10 ⟨100, 107, 1⟩ = [1, 2] := by decide
+example : (biBlocksAt exD 10 ⟨100, 107, 1⟩).2 = [2, 3, 1] := by decide
+example : (biBlocksAt exD' 10 ⟨100, 107, 1⟩).2 = [1, 2, 3] := by decide
+example : (secBlocksOn exD 20 ⟨100, 107, 1⟩).2 = [2, 1] := by decide
+example : (secExtent exD 20).2 = some (100, 32) := by decide
+
+example : sameAnswer (runQuery exD (.bat 10 ⟨100, 107, 1⟩)).2 (runQuery exD' (.bat 10 ⟨100, 107, 1⟩)).2 :=
+  C12_schedule exD0 exD0_inv exActs exActs' rfl _
+
+/-- `C12_query_strip` needs well-formedness: with a duplicated interval id a
+lookup changes the structure. -/
+def exBad : D :=
+  { bis := [{ id := 1, addr := some 5, size := 1, sec := none },
+            { id := 1, addr := some 7, size := 2, sec := none }] }
+
+theorem C12_query_strip_needs_inv :
+    (strip (runQuery exBad (.bono 1 ⟨0, 10, 1⟩)).1).2 ≠ (strip exBad).2 := by decide
 
 end Gtirb.Index
